@@ -9,6 +9,7 @@ from .. import algotrace as AT, callcheck as CC
 from ..judge import judge
 from ..orchrt import OrchWorld
 from .C25 import deployment
+from ..orchproto import ProtocolRecorder
 
 SHAPES = ["path4", "star4", "cycle4", "tritail", "kite", "path5"]
 
@@ -16,6 +17,14 @@ SHAPES = ["path4", "star4", "cycle4", "tritail", "kite", "path5"]
 def one_run(hid, inst, dep, leaving, sseed):
     r = random.Random(sseed)
     dcop, cg, algo_def, dist, names, comps = deployment(inst, dep, algo="dsa")
+    prec = ProtocolRecorder(comps).install()
+    try:
+        return _one_run(hid, inst, dep, leaving, sseed, r, dcop, cg, algo_def, dist, names, comps, prec)
+    finally:
+        prec.uninstall()
+
+
+def _one_run(hid, inst, dep, leaving, sseed, r, dcop, cg, algo_def, dist, names, comps, prec):
     w = OrchWorld(dcop, algo_def, cg, dist, infinity=10000, replication="dist_ucs_hostingcosts", seed=sseed)
     w.boot_all(order=r)
     stuck = w.deploy() or w.replicate(dep["k"])
@@ -33,7 +42,8 @@ def one_run(hid, inst, dep, leaving, sseed):
     exc = ["%s: %s handling %s" % (e[0], e[4], e[3]) for e in w.exc]
     return {"id": hid, "comps": comps, "alive": alive, "left": list(leaving), "hostBefore": host_before, "repsBefore": reps_before,
             "hosted": hosted, "dir": {c: dd._computations_data.get(c, "") for c in comps}, "status": status or "", "exc": exc}, \
-        {"shape": inst["shape"], "dep": dep, "leaving": list(leaving), "inst": inst, "k": dep["k"], "steps": dict(w.phase_steps), "sched_seed": sseed}
+        {"shape": inst["shape"], "dep": dep, "leaving": list(leaving), "inst": inst, "k": dep["k"], "steps": dict(w.phase_steps), "sched_seed": sseed,
+         "removals": [dict(x) for x in prec.removals]}
 
 
 def run(tier):
@@ -67,6 +77,28 @@ def run(tier):
     v.cov["runs_outside_the_premise_not_judged"] = len(premise_fails)
     verdicts, jres = judge("Judge_C27", recs, chunk=400)
     v.add_tlc(jres, "state after %d repairs judged (Judge_C27 / Repair.tla)" % len(recs))
+    # the repair orchestration itself: RepairProtocol.tla model-checked for a small configuration, and the protocol events of every
+    # removal of every run validated against it (Judge_Repair.tla)
+    from .. import tlc as T
+    pres = T.run("RepairProtocol", "SPECIFICATION Spec\nINVARIANT OkMeansAllTaken\nINVARIANT OnlyCandidatesRun\nINVARIANT NobodyRunsBeforeAllReady\n",
+                 consts=dict(Agents={"a1", "a2", "a3"}, Leaving={"a1"}, Orphaned={"x", "y"},
+                             Reps='@[c \\in {"x", "y"} |-> IF c = "x" THEN {"a2", "a3"} ELSE {"a3", "a1"}]'), workers=4, deadlock=True)
+    if pres.violated or pres.errors:
+        raise MachineryError("RepairProtocol.tla does not satisfy its own invariants: %s %s" % (pres.violated, pres.errors[:2]))
+    v.add_tlc(pres, "RepairProtocol.tla, all orders of the repair protocol's events and all ways of sharing the orphaned computations")
+    rrecs, rof = [], {}
+    for rec in recs:
+        for x in meta[rec["id"]]["removals"]:
+            rr = dict(x, id=len(rrecs))
+            rof[rr["id"]] = rec["id"]
+            rrecs.append(rr)
+    if rrecs:
+        rverd, rres = judge("Judge_Repair", rrecs, chunk=400)
+        v.add_tlc(rres, "repair protocol events of %d removals validated against RepairProtocol.tla (Judge_Repair)" % len(rrecs))
+        for rr in rrecs:
+            for clause in rverd[rr["id"]]:
+                verdicts[rof[rr["id"]]] = list(verdicts[rof[rr["id"]]]) + ["protocol_" + clause]
+        v.cov["repair_protocol_events_validated"] = sum(len(x["ev"]) for x in rrecs)
     for rec in recs:
         m = meta[rec["id"]]
         v.cov["evaluations"] += 1
